@@ -371,6 +371,7 @@ package iavl
 //@   requires ndb != nil && ndb.db != nil
 //@   macro legacyread = calls("KVStoreWithBatch).Get@2") == 1 && result("KVStoreWithBatch).Get@2", 1) == nil
 //@   macro legacyval = result("KVStoreWithBatch).Get@2", 0)
+//@   ensures [legacy-record-consulted-whenever-there-is-no-new-root-record] calls("KVStoreWithBatch).Get@1") == 1 && result("KVStoreWithBatch).Get@1", 1) == nil && result("KVStoreWithBatch).Get@1", 0) == nil ==> calls("KVStoreWithBatch).Get@2") == 1
 //@   ensures [legacy-empty-version-exists] legacyread && legacyval != nil && len(legacyval) == 0 ==> err == nil && key == nil
 //@   ensures [legacy-version-resolves] legacyread && legacyval != nil && len(legacyval) > 0 ==> err == nil && key == legacyval
 //@   ensures [legacy-absent] legacyread && legacyval == nil ==> err == ErrVersionDoesNotExist
